@@ -5,6 +5,7 @@ cd /repo || exit 2
 if [ -n "$(git status --porcelain -- src)" ]; then echo "repo dirty"; exit 2; fi
 git apply /verif/seeded/$NAME/patch.diff || exit 2
 cd /verif
+export VERIF_EVIDENCE_DIR=/tmp/t/evidence_mutants; mkdir -p $VERIF_EVIDENCE_DIR
 for p in "$@"; do
   ./check $p > /tmp/t/try_$NAME_$p.out 2>&1; rc=$?
   echo "[$NAME] check $p -> exit $rc : $(grep -E 'VIOLATION|OK property|UNDECIDED|KNOWN' /tmp/t/try_$NAME_$p.out | head -3 | cut -c1-220)"
